@@ -264,11 +264,49 @@ def rule_regex(repo: Repo) -> RuleResult:
     return r
 
 
+def rule_joint(repo: Repo) -> RuleResult:
+    """one joint action = ONE call of apply_actions on the triplet's previous state with all executed members: the joint applicability
+    test then sees every member in the state before the step (a member must not be enabled by another member of the same step)"""
+    r = RuleResult("C16.joint", "the triplet constructor hands the previous state itself and the whole member list to apply_actions",
+                   "all members are tested in the state before the joint action; one step per joint action")
+    f = L.fn(repo, "MultiAgentTrajectoryExporter.create_multi_agent_triplet")
+    p = L.prov(repo, f)
+    ap = repo.func("multi_agent.common::apply_actions")
+    calls = [c for c in L.calls_in(f.node) if callee_name(c) == "apply_actions"]
+    if not calls:
+        raise AnalysisError("create_multi_agent_triplet: no call of apply_actions found")
+    pm = L.parents_of(f)
+    for c in calls:
+        r.site(L.site(f, c, "joint application"))
+        st = L.arg_of(c, ap, "current_state", 1)
+        members = L.arg_of(c, ap, "joint_action", 2)
+        if st is None or members is None:
+            raise AnalysisError("create_multi_agent_triplet: arguments of apply_actions not recognised")
+        ts = p.trace(st)
+        from_outcome = any(any(s_.endswith(":apply_actions") for s_ in x) for x in ts)
+        from_prev = any(x[0] == "param:previous_state" for x in ts)
+        in_member_loop = False
+        cur = c
+        while cur in pm:
+            cur = pm[cur]
+            if isinstance(cur, (ast.For, ast.While)):
+                in_member_loop = True
+        if from_outcome or not from_prev:
+            r.fail(Finding("C16.joint", f, "state:accumulated", f"apply_actions is handed {unparse(st, 40)}, which is (also) the outcome of applying other members: "
+                           f"a member is then tested in a state that earlier members of the same joint action have changed", node=c))
+        elif in_member_loop:
+            r.fail(Finding("C16.joint", f, "per-member-call", "apply_actions is called inside a loop of the triplet constructor: the joint action is split into several applications", node=c))
+        else:
+            r.ok({"state": "previous_state", "members": unparse(members, 40)})
+    r.require_sites(1)
+    return r
+
+
 def rules(repo: Repo, tier: str) -> List[RuleResult]:
     return [rule_guard(repo), rule_regex(repo),
             c04.rule_thread(repo, "C16.thread", "MultiAgentTrajectoryExporter.parse_plan", "create_multi_agent_triplet", init_fn="create_initial_state"),
             rule_export(repo, "C16.export", "MultiAgentTrajectoryExporter", "operators:"),
-            rule_objects(repo)] + _member_rules(repo)
+            rule_objects(repo), rule_joint(repo)] + _member_rules(repo)
 
 
 def _member_rules(repo: Repo) -> List[RuleResult]:
